@@ -746,6 +746,18 @@ func c02Corpus() []*pgProgram {
 	for form := 0; form < 5; form++ {
 		ps = append(ps, mk(pgShadowAfterUse(form, []string{"a", "b", "f", "n", "m"}, x(), 2, 3), ints...))
 	}
+	// a closure field named like a built-in map method, called with every argument count (the optimizer must
+	// not fold the call as the built-in method, whether or not the closure accepts the arguments)
+	for _, name := range pgMapMethodNames {
+		for clo := 1; clo <= 3; clo++ {
+			for call := 0; call <= 3; call++ {
+				ps = append(ps, mk(pgFieldNamedLikeMethod(name, clo, call, false, (clo+call)%2 == 0), ints...))
+				if name == "size" || name == "get" {
+					ps = append(ps, mk(pgFieldNamedLikeMethod(name, clo, call, true, (clo+call)%2 == 1), ints...))
+				}
+			}
+		}
+	}
 	// a constant list/map literal inside a folded closure is one shared value: it must survive its uses
 	for form := 0; form < 7; form++ {
 		ps = append(ps, c02SharedConstProgram(form, 1, 3, 0))
@@ -827,6 +839,14 @@ func cmdC02(seed int64, tier, outDir string) {
 	r := NewRng(seed)
 	for i := 0; i < n; i++ {
 		id++
+		if r.Chance(0.03) {
+			t := pgFieldNamedLikeMethod(pgMapMethodNames[r.Pick(len(pgMapMethodNames))], 1+r.Pick(3), r.Pick(4), r.Chance(0.4), r.Chance(0.5))
+			if r.Chance(0.5) {
+				t = pgNList(pgNTry(pgNIf(pgNId("true"), t, pgNInt(0)), pgNStr("error")), pgNId("x"))
+			}
+			run.runCase(&pgProgram{T: t, ArgNames: []string{"x"}, Tuples: [][]*Tree{{c01Ti(5)}, {c01Ti(1)}, {c01Ti(-7)}}, Stream: "field-named-like-method"}, id)
+			continue
+		}
 		if r.Chance(0.05) {
 			run.runCase(c02SharedConstProgram(r.Pick(7), int64(r.Pick(4)), int64(4+r.Pick(4)), r.Pick(3)), id)
 			continue
